@@ -119,6 +119,15 @@ RUNTIME_FAULTS = [
     # a name that was referenced (validly) earlier on another line
     ("out-of-scope-name", "pz_q"),
     ("second-use-fails", "seen_q ( 1 )"),
+    # errors raised by helpers that do not know where they were called
+    ("comprehension-over-int", "[ x for x in v0 ]"),
+    ("set-comprehension-over-int", "<< x for x in v0 >>"),
+    ("map-comprehension-over-int", "<<< x => 1 for x in v0 >>>"),
+    ("product-comprehension-over-int", "[ x for x in [ 1 ] for y in v0 ]"),
+    ("conversion", "int ( 'x' )"), ("pow-of-string", "pow ( 'a' , 2 )"),
+    ("bind-unknown-native", "bind_native ( 'nosuch' )"),
+    ("ls-of-int", "ls ( 1 )"), ("date-of-text", "date ( 'x' )"),
+    ("callback-not-a-function", "process_lines ( [ 'a' ] , 5 )"),
     # calls written over several lines: the call begins at its first line
     ("builtin-arg-multiline", "length ( ¶ 1 ¶ )"),
     ("builtin-too-many-spread", "length ( ¶ ... [ 1 , 2 ] ¶ )"),
@@ -383,6 +392,8 @@ def prop(case):
     if k == "prog":
         return prog_prop(case["text"], case["planted"], case["call_line"],
                          case["syntax"])
+    if k == "callpos":
+        return call_position_prop(case["src"])[0]
     if k == "module":
         return module_prop(case["text"], case["planted"], case["in_function"],
                            style=case.get("style", "plain"))
@@ -486,6 +497,62 @@ def part_programs(part, n):
     part.hyp(tapes(300), body, n)
 
 
+POS_RE = re.compile(r"(?:gen\.ckl|mod:[^:\s]+):(\d+):(\d+)\Z")
+
+
+def call_position_prop(src):
+    """Whatever runtime error a call raises carries a file and a line."""
+    out = cklrun.run(src, budget=5, name="gen.ckl")
+    if out[0] != "error":
+        return None, out[0]
+    pos = out[3]
+    m = POS_RE.match(pos or "")
+    if not m or int(m.group(1)) < 1:
+        return Finding("C20|runtime-error-without-file-or-line",
+                       f"{src!r} raised {out[2]!r} with position {pos!r}"), \
+            "error"
+    st = getattr(out[5], "stacktrace", [])
+    for entry in st:
+        if not LINE_RE.search(entry):
+            return Finding("C20|stacktrace-entry-without-position",
+                           f"{src!r}: entry {entry!r}"), "error"
+    return None, "error"
+
+
+def part_call_positions(part, n):
+    """Generated calls of every function with generated arguments (the
+    tables of C13): errors come from conversions, helpers, callbacks and
+    library code, not only from planted faults."""
+    from vf.checks import c13
+    it = cklrun.interpreter()
+    names = sorted(k for k, v in it.base_environment.map.items()
+                   if hasattr(v, "isFunc") and v.isFunc()
+                   and k not in c13.NO_FUZZ and k not in (
+                       "readln", "read", "read_all", "exit", "now",
+                       "timestamp", "file_output", "make_dir", "file_delete",
+                       "file_copy", "file_move"))
+
+    def body(tape):
+        ch = TapeChooser(tape)
+        f = ch.choice(names)
+        args = [c13.gen_arg(ch) for _ in range(ch.int(0, 3))]
+        if ch.bool(0.15) and args:
+            args[-1] = "zz = " + args[-1]
+        lines_before = ch.int(0, 3)
+        src = "\n" * lines_before + f + "(" + ", ".join(args) + ")"
+        part.count()
+        fnd, kind = call_position_prop(src)
+        part.cls("call-position:" + kind, src if len(src) < 120 and
+                 part.evaluations % 40 == 0 else None)
+        if kind == "error":
+            part.nontriv((f, tuple(args)))
+        if fnd:
+            fnd.signature += "|" + f
+            part.collect(fnd, {"kind": "callpos", "src": src})
+        return None
+    part.hyp(tapes(64), body, n, shrink=False)
+
+
 def part_modules(part, n):
     def body(tape):
         ch = TapeChooser(tape)
@@ -523,10 +590,14 @@ def parts(tier, seed):
         ps += [("matrix", part_token_matrix, {})]
         ps += [(f"programs-{i}", part_programs, {"n": 2500}) for i in range(5)]
         ps += [(f"modules-{i}", part_modules, {"n": 60}) for i in range(4)]
+        ps += [(f"callpos-{i}", part_call_positions, {"n": 4000})
+               for i in range(4)]
     else:
         ps = [(f"tokens-{i}", part_tokens, {"n": 80000}) for i in range(4)]
         ps += [("matrix", part_token_matrix, {})]
         ps += [(f"programs-{i}", part_programs, {"n": 30000})
                for i in range(6)]
         ps += [(f"modules-{i}", part_modules, {"n": 400}) for i in range(4)]
+        ps += [(f"callpos-{i}", part_call_positions, {"n": 80000})
+               for i in range(6)]
     return ps
